@@ -50,7 +50,7 @@ CLAIMS = {
    technique='TLA+ models of channel-id allocation and of channel send/dispatch/receive/close/setcallback model-checked with TLC; real Gateway+WorkerGateway pair under deterministic schedule exploration (sync-point and line-level preemption); every trace validated by TLC against the TLA+ property automaton',
    ref="5/C18"),
  "C04": dict(
-   text='The worker->initiator byte stream of each program is cut after every possible number of bytes (0..L: inside headers, inside payloads, between frames), either breaking the connection or killing the peer, over the real Popen2IO and SocketIO under explored schedules and read chunkings; the survivor has blocked receivers, waitclose callers and a callback with endmarker. spec/GatewayAbs.tla (TLC) demands: delivered items = the frames that arrived completely, in order; then EOFError; endmarker exactly once; no thread blocked forever; after join() send/newchannel/remote_exec raise OSError and hasreceiver() is false. spec/Gateway.tla gives the exhaustive interleaving argument for the close path.',
+   text='The worker->initiator byte stream of each program is cut after every possible number of bytes (0..L: inside headers, inside payloads, between frames), either breaking the connection or killing the peer, over the real Popen2IO and SocketIO under explored schedules and read chunkings; the survivor has blocked receivers, waitclose callers and a callback with endmarker. spec/GatewayAbs.tla (TLC) demands: delivered items = the frames that arrived completely, in order; then EOFError; endmarker exactly once; no thread blocked forever; after join() send/newchannel/remote_exec raise OSError and hasreceiver() is false. spec/Gateway.tla gives the exhaustive interleaving argument for the close path. On real transports the worker process of a popen, socket and via= gateway (also behind an execnet-less interpreter) is SIGKILLed in mid-conversation and every blocked and later operation of the survivor is judged clause by clause by TLC (spec/LossCases.tla).',
    note="Trusted: simulated Lock/Event/Queue/pipe semantics; preemption at synchronisation/IO operations and at source lines of listed functions; virtual time. Oracle = property automaton spec/GatewayAbs.tla evaluated by TLC on every distinct trace. 'From then on' = from the return of join().",
    technique='TLA+ model of channel dispatch/close model-checked with TLC; real gateway pair in a deterministic simulator with the connection cut at every byte offset (two failure modes, two IO classes) x schedules; every trace validated by TLC against the TLA+ property automaton',
    ref="5/C04"),
@@ -65,12 +65,12 @@ CLAIMS = {
    technique="TLA+ model of main_thread_only scheduling model-checked with TLC over all bounded histories (incl. 2 mutants); real worker+initiator under deterministic schedule exploration and real popen workers; traces validated by TLC against the TLA+ property automaton",
    ref="5/C14"),
  "C19": dict(
-   text="spec/ChanFile.tla states the reference (a position in the concatenation of the items) next to the buffer algorithm of ChannelFileRead.read/readline; TLC checks algorithm = reference for every split of every string over {a, b, newline} (<= 3/4 chars, <= 3 items incl. empty) and every call sequence. The same scenario space (text and bytes), generated long unicode/binary inputs and real popen channels (makefile('r') and makefile('w'): one item per write, flush, write after close, proxyclose) are run on the real code; TLC judges every recorded result against the reference (spec/ChanFileCases.tla).",
+   text="spec/ChanFile.tla states the reference (a position in the concatenation of the items) next to the buffer algorithm of ChannelFileRead.read/readline; TLC checks algorithm = reference for every split of every string over {a, b, newline} (<= 3/4 chars, <= 3 items incl. empty) and every call sequence. The same scenario space (text and bytes), generated long unicode/binary inputs and real popen channels (makefile('r') and makefile('w'): one item per write, flush, write after close, proxyclose) are run on the real code; TLC judges every recorded result against the reference (spec/ChanFileCases.tla). Real channels that end in every way (end of the remote code, local close with unread items, a peer that dropped its end, gateway exit) are read to EOF and beyond; a read that blocks is a violation.",
    note="Trusted: stub channel for the exhaustive part; code points / bytes projection. An ended channel without any item yields '' also for byte streams (accepted as empty).",
    technique="TLA+ reference file semantics + transliterated buffer algorithm model-checked with TLC; model's scenario space replayed on the real ChannelFile classes; results validated by TLC",
    ref="5/C19"),
  "C20": dict(
-   text='spec/XSpec.tla defines Split/Parse and, independently, Expected(kvs) for key/value lists; TLC checks Parse(Join(kvs)) = Expected(kvs) for all lists of <= 2 (3) pairs over an alphabet with every structural character and determines the unambiguous domain; spec/GroupIds.tla models allocate_id / _register of concurrent makegateway calls and terminate (TLC kills the check-then-append design). The real XSpec is run on enumerated and generated lists and judged by TLC (attributes, env, str/eq/hash, absent names, ValueError on any repeated key). Group id allocation/registration and the container protocol run as the real code under the baton scheduler with line-level preemption (preemption-bounded systematic + random schedules) and on a real Group with real popen gateways; TLC checks no two live gateways share an id, auto ids unique, lookups agree with iteration, failed makegateway leaves no process.',
+   text='spec/XSpec.tla defines Split/Parse and, independently, Expected(kvs) for key/value lists; TLC checks Parse(Join(kvs)) = Expected(kvs) for all lists of <= 2 (3) pairs over an alphabet with every structural character and determines the unambiguous domain; spec/GroupIds.tla models allocate_id / _register of concurrent makegateway calls and terminate (TLC kills the check-then-append design). The real XSpec is run on enumerated and generated lists and judged by TLC (attributes, env, str/eq/hash, absent names, ValueError on any repeated key). Group id allocation/registration and the container protocol run as the real code under the baton scheduler with line-level preemption (preemption-bounded systematic + random schedules) and on a real Group with real popen gateways; TLC checks no two live gateways share an id, auto ids unique, lookups agree with iteration, failed makegateway leaves no process. spec/GroupIds.tla also covers creations that fail (the counter-hand-back design is killed); the group simulator injects such failures, looks gateways up by object after id reuse and exits gateways twice.',
    note="Trusted: process creation replaced by recording fakes in the simulated Group runs; ambiguous joins are outside the domain. Known findings: key named 'env', concurrent id collision leaves a process.",
    technique="TLA+ parser spec model-checked with TLC over bounded key/value lists; recorded XSpec results and Group event traces (deterministic simulator with line-level preemption + real gateways) validated by TLC",
    ref="5/C20"),
@@ -85,12 +85,12 @@ CLAIMS = {
    technique="TLA+ model of the worker exit ladder with discrete clock model-checked with TLC (incl. mutant); real initiator/worker processes with generated activities and death modes; timed observations validated by TLC against the model's rung deadlines",
    ref="5/C11"),
  "C05": dict(
-   text='spec/Termination.tla (initiator half): Group.terminate(timeout) = exit() for every member, then one (join+wait, kill) pair per gateway with `timeout` for the term function, SIGKILL afterwards and a bounded 2*timeout wait, against the environment automaton of remote states; TLC checks terminate returns, within 2*timeout (+1 tick), with no child left, for every environment and time-out, and kills the never-kills mutant. Real Groups with 1-3 popen / via / socket gateways whose workers are idle, blocked, busy, sleeping, swallowing or ignoring interrupts, running extra threads, SIGSTOPped or already dead are terminated with several time-outs; elapsed time, len(group) and every descendant process are observed and judged by TLC (spec/TermCases.tla); failing makegateway calls are checked for leaked processes (also in the simulated Group of C20).',
+   text='spec/Termination.tla (initiator half): Group.terminate(timeout) = exit() for every member, then one (join+wait, kill) pair per gateway with `timeout` for the term function, SIGKILL afterwards and a bounded 2*timeout wait, against the environment automaton of remote states; TLC checks terminate returns, within 2*timeout (+1 tick), with no child left, for every environment and time-out, and kills the never-kills mutant. Real Groups with 1-3 popen / via / socket gateways whose workers are idle, blocked, busy, sleeping, swallowing or ignoring interrupts, running extra threads, SIGSTOPped or already dead are terminated with several time-outs; elapsed time, len(group) and every descendant process are observed and judged by TLC (spec/TermCases.tla); failing makegateway calls are checked for leaked processes (also in the simulated Group of C20). Failed makegateway calls under concurrency run in the group simulator (real allocate_id / _register / makegateway with line-level preemption, process creation faked, creation failures injected) and are judged by the Group automaton of spec/XSpecCases.tla.',
    note="Wall-clock bound rounds*2*timeout + 3 s; the OS chooses schedules; run as root. Known finding (shared with C20): concurrent id collision leaves a process.",
    technique="TLA+ model of terminate/kill with discrete clock model-checked with TLC (incl. mutant); real Groups and worker processes with injected signals; timed observations and process-table diffs validated by TLC",
    ref="5/C05"),
  "C15": dict(
-   text="spec/Bootstrap.tla models the handshake of the four bootstrap paths against child interpreters with and without execnet, with the set of modules each shipped text imports and the balance of its guarded fallback imports extracted from the current sources by an AST pass at check time; TLC checks that every source-shipping path comes up on a stdlib-only child. Decisive part: children started as `python -I -S` of 3.10-3.13 (execnet verified unimportable) via popen//python=, via= and socket//installvia= (thread and main_thread_only, also with EXECNET_DEBUG set) run the transcript program set; TLC compares each transcript entry by entry with the import-bootstrapped popen worker's, and checks kill/wait through an execnet-less forwarder.",
+   text="spec/Bootstrap.tla models the handshake of the four bootstrap paths against child interpreters with and without execnet, with the set of modules each shipped text imports and the balance of its guarded fallback imports extracted from the current sources by an AST pass at check time; TLC checks that every source-shipping path comes up on a stdlib-only child. Decisive part: children started as `python -I -S` of 3.10-3.13 (execnet verified unimportable) via popen//python=, via= and socket//installvia= (thread and main_thread_only, also with EXECNET_DEBUG set) run the transcript program set; TLC compares each transcript entry by entry with the import-bootstrapped popen worker's, and checks kill/wait through an execnet-less forwarder. The AST projection also lists, per shipped text, the global names it reads that neither it nor the text executed before it binds (Unresolved, required empty by TLC); children whose standard streams are not UTF-8 (legacy C locale, no coercion) are part of the matrix.",
    note="ssh/vagrant not runnable here (same exec-over-pipe path as python=); run-time references on undriven paths are only seen through the import projection.",
    technique="TLA+ handshake model instantiated with an AST projection of the shipped sources, checked with TLC; real execnet-less interpreters 3.10-3.13 on every source bootstrap path; transcripts validated by TLC against the import-bootstrapped baseline",
    ref="5/C15"),
@@ -100,7 +100,7 @@ CLAIMS = {
    technique="TLA+ proxy model (refinement to a FIFO byte stream) model-checked with TLC; channel-program transcripts on the full transport x execmodel matrix validated by TLC against the popen baseline",
    ref="5/C16"),
  "C06": dict(
-   text="spec/RemoteExec.tla states remote_exec's local front end as a two-phase decision table over the shape of what is passed (string / module / function x lambda, first parameter, closure, non-builtin global, shadowed global, nested, defaults, decorated, kwargs none/serialisable/unserialisable); TLC checks that a rejection never sends a frame and that the table agrees with the statement's list of rejected shapes. TLC enumerates the ~250 shapes; each is synthesised as a real source file / module / string and passed to the real remote_exec on a real popen gateway (thorough: also main_thread_only and via): exception class, nothing sent on rejection, code ran, channel bound, __name__, kwargs equal by value and type. Tracebacks of functions, modules and strings are checked for the original file and line; explicit close from inside is refused (also after the initiator closed first) and the channel stays open until the code ends; stdout/stderr/fd 1/fd 2/subprocess output of 0..5 MB is followed by further traffic. TLC judges every recorded case (spec/RemoteExecCases.tla).",
+   text="spec/RemoteExec.tla states remote_exec's local front end as a two-phase decision table over the shape of what is passed (string / module / function x lambda, first parameter, closure, non-builtin global, shadowed global, nested, defaults, decorated, kwargs none/serialisable/unserialisable); TLC checks that a rejection never sends a frame and that the table agrees with the statement's list of rejected shapes. TLC enumerates the ~250 shapes; each is synthesised as a real source file / module / string and passed to the real remote_exec on a real popen gateway (thorough: also main_thread_only and via): exception class, nothing sent on rejection, code ran, channel bound, __name__, kwargs equal by value and type. Tracebacks of functions, modules and strings are checked for the original file and line; explicit close from inside is refused (also after the initiator closed first) and the channel stays open until the code ends; stdout/stderr/fd 1/fd 2/subprocess output of 0..5 MB is followed by further traffic. TLC judges every recorded case (spec/RemoteExecCases.tla). The stdio cases (incl. remote code that rebinds sys.stdout / sys.stdin) are repeated on a gevent worker.",
    note="The purity analysis is not decided for all Python syntax: the table covers the shapes the statement enumerates plus the shadowed-global shape. 'Nothing sent' is observed through channel id allocation.",
    technique="TLA+ decision-table model of remote_exec checked with TLC; TLC-enumerated shapes synthesised and replayed on the real remote_exec over real gateways; recorded outcomes validated by TLC",
    ref="5/C06"),
